@@ -2,6 +2,9 @@
    `|` < concatenation < postfix < `#` < atom (left associative) through the minimal-parentheses
    printer and through any printer with redundant parentheses. *)
 From LexVerif Require Import Base CharClass Regex Parser ParserProofs Driver DefParser DefParserProofs.
+From LexVerif Require Import Base CharClass Regex Spec SpecExec LexSpec Nfa Dfa NfaToDfa NfaSem Codegen
+     Runtime ScanIface RulesetSem Driver SpecDef ClassAlgProofs RuntimeProofs EndToEnd EndToEndModel.
+From LexVerif Require Import ScopingFacts.
 
 Theorem c16_roundtrip_min : forall r rest,
   eoi_safe' r = true -> stops rest ->
@@ -39,6 +42,57 @@ Proof. exact parse_re_fuel_mono. Qed.
 Theorem c16_def_roundtrip : forall tc d, forallb ptop_ok d = true -> parse_def (print_def tc d) = Some d.
 Proof. exact def_roundtrip. Qed.
 
+(* ---- variable scoping (SpecDef.def_rulesets is the documented reading of `let`) ----
+   a variable and its definition are interchangeable; a binding inside a rule set is visible in the rules after it
+   and nowhere else; a top-level binding is visible in everything after it; and two definitions that read as the
+   same rule sets (e.g. with and without variables) compile to lexers that behave identically on every input *)
+Theorem c16_expand_subst_var : forall b v re r x,
+  lookup_var v b = Some re -> expand_top b r = Ok x -> expand_top b (subst_var v re r) = Ok x.
+Proof. exact expand_subst_var. Qed.
+
+Theorem c16_close_rule_subst : forall b v re r c,
+  lookup_var v b = Some re -> close_rule b r = Ok c ->
+  close_rule b (mkRule (subst_var v re (ru_re r))
+                       (match ru_ctx r with Some cx => Some (subst_var v re cx) | None => None end)
+                       (ru_act r)) = Ok c.
+Proof. exact close_rule_subst. Qed.
+
+Theorem c16_local_let_not_visible_later : forall nm rules rest b un u named cs,
+  def_rulesets_go (TRuleSet nm rules :: rest) b un = Ok (u, (nm, cs) :: named) ->
+  close_rules rules b = Ok cs /\ def_rulesets_go rest b un = Ok (u, named).
+Proof. exact local_let_not_visible_later. Qed.
+
+Theorem c16_top_let_visible_later : forall v re rest b un,
+  def_rulesets_go (TRob (RBBinding v re) :: rest) b un = def_rulesets_go rest (b ++ [(v, re)]) un.
+Proof. exact top_let_visible_later. Qed.
+
+Theorem c16_local_let_visible_after : forall v re rest b,
+  close_rules (RBBinding v re :: rest) b = close_rules rest (b ++ [(v, re)]).
+Proof. exact local_let_visible_after. Qed.
+
+Theorem c16_local_rule_sees_only_earlier : forall r rest b c cs,
+  close_rules (RBRule r :: rest) b = Ok (c :: cs) -> close_rule b r = Ok c /\ close_rules rest b = Ok cs.
+Proof. exact local_rule_sees_only_earlier. Qed.
+
+Theorem c16_same_rulesets_same_lexer :
+  forall benv mg (width : N -> N) tab_width (T E U : Type) (d1 d2 : def) c1 c2 rss (actions : nat -> action T E U),
+  benv_wf benv ->
+  compile benv mg d1 = Ok c1 -> compile benv mg d2 = Ok c2 ->
+  def_rulesets d1 = Ok rss -> def_rulesets d2 = Ok rss ->
+  wf_def benv d1 = true ->
+  def_chars_ok benv rss ->
+  acts_distinct d1 -> acts_distinct d2 ->
+  (forall a v u n, a_switch (actions a v u) = Some n -> n < length (p_switch (c_program c1))) ->
+  (forall a v u n, a_switch (actions a v u) = Some n -> n < length (p_switch (c_program c2))) ->
+  forall whole u with_str,
+    Forall (fun ch => is_scalar ch = true) whole ->
+    (with_str = false -> RuntimeProofs.text_blind T E U actions) ->
+  forall n fuel,
+    enough_fuel U fuel (lexer_new U whole u with_str) ->
+    run_lexer width tab_width T E U (c_program c1) actions n fuel (lexer_new U whole u with_str)
+    = run_lexer width tab_width T E U (c_program c2) actions n fuel (lexer_new U whole u with_str).
+Proof. exact same_rulesets_same_lexer. Qed.
+
 Print Assumptions c16_roundtrip_min.
 Print Assumptions c16_roundtrip_min_top.
 Print Assumptions c16_roundtrip_any.
@@ -47,3 +101,10 @@ Print Assumptions c16_eoi_free_ok.
 Print Assumptions c16_eoi_tail_ok.
 Print Assumptions c16_fuel_mono.
 Print Assumptions c16_def_roundtrip.
+Print Assumptions c16_expand_subst_var.
+Print Assumptions c16_close_rule_subst.
+Print Assumptions c16_local_let_not_visible_later.
+Print Assumptions c16_top_let_visible_later.
+Print Assumptions c16_local_let_visible_after.
+Print Assumptions c16_local_rule_sees_only_earlier.
+Print Assumptions c16_same_rulesets_same_lexer.
